@@ -847,7 +847,10 @@ impl ParsleyParser for StreamContentP {
             buf.incr_cursor_unsafe();
         }
         if self.eol_after_stream_content && end_eol == buf.get_cursor() {
-            let msg = format!("no EOL after stream content: {}", buf.peek().unwrap());
+            let msg = match buf.peek() {
+                Some(s) => format!("no EOL after stream content: {}", s),
+                None => "no EOL after stream content: end-of-buffer".to_string(),
+            };
             let err = ErrorKind::GuardError(msg);
             buf.set_cursor_unsafe(start);
             return Err(locate_value(err, start, end_eol))
